@@ -86,6 +86,7 @@ ResyncPlanOk(t) ==
         /\ (plan[i].k = "frame" => /\ WellFormedItem(plan[i]) /\ plan[i - 1].k = "flags" /\ plan[i + 1].k = "flags")
   /\ \A i, j \in 1..Len(fr) : i # j => fr[i] # fr[j]
   /\ (~cfg.stuffing => \A i \in 1..Len(fr) : ~Has(fr[i], FLAG))     \* DESIGN 8-9: without stuffing the clean suffix is flag-free
+  /\ ((~cfg.stuffing /\ cfg.abort) => \A i \in 1..Len(fr) : fr[i][Len(fr[i])] # ESC)   \* DESIGN 8-18: ... and no frame ends in 7D (7D 7E is the abort sequence)
   /\ \A r \in 1..Len(t.runs) : Fed(t.runs[r]) = PlanWire(cfg, plan)
 Required(t) ==
   LET cfg == Cfg(t) plan == t.plan ne == NoiseEnd(plan) off == Offsets(cfg, plan)
